@@ -128,8 +128,10 @@ type twinResult struct {
 	Rejected   string
 	Ops        []opResult
 	Logs       []expLog
-	Dump       vh.Dump // staking + distribution + bank stores of the branch (only when OK)
+	Dump       vh.Dump // staking + distribution + bank stores of the branch after the native messages (only when OK)
 	Rewards    map[string]string
+	FeeOnly    vh.Dump // the same stores with nothing but the fee moved
+	FeeOnlyRewards map[string]string
 	WithdrawTo map[common.Address]bool
 	View       *viewExpect
 }
@@ -169,6 +171,8 @@ func (w *world) runTwin(octx sdk.Context, p *plan) *twinResult {
 			tr.WithdrawTo[common.BytesToAddress(wa)] = true
 		}
 	}
+	tr.FeeOnly = w.c.DumpStores(ctx, "staking", "distribution", "bank")
+	tr.FeeOnlyRewards = w.pendingRewards(ctx)
 	ok, logs := w.runFrame(ctx, p.Root, tr)
 	tr.OK = ok
 	if len(tr.Ops) == 1 && tr.Ops[0].Noop {
@@ -222,7 +226,7 @@ func (w *world) applyOp(ctx sdk.Context, op *nativeOp, tr *twinResult) (bool, []
 		err = fmt.Errorf("must be refused: %s", op.MustReject)
 		tr.Rejected = op.MustReject
 	} else {
-		err = w.native(cc, op)
+		err = w.nativeRecovered(cc, op)
 	}
 	if err != nil {
 		res.Err = err.Error()
@@ -242,6 +246,17 @@ func coin(a *big.Int) sdk.Coin {
 		a = new(big.Int)
 	}
 	return sdk.Coin{Denom: vh.Denom, Amount: sdkmath.NewIntFromBigInt(a)}
+}
+
+// nativeRecovered: a panic of the message server (e.g. "Int overflow" for absurd amounts) is
+// how the native transaction would fail too (baseapp recovers it): count it as a failure.
+func (w *world) nativeRecovered(ctx sdk.Context, op *nativeOp) (err error) {
+	defer func() {
+		if r := recover(); r != nil {
+			err = fmt.Errorf("panic: %v", r)
+		}
+	}()
+	return w.native(ctx, op)
 }
 
 // native applies the native message(s) an op stands for, through the real message servers.
